@@ -15,7 +15,7 @@ Proof. intros H. pose proof (below_spec 8 _ digit_sweep c H) as S. apply andb_pr
   split; [apply N.eqb_eq; exact A | apply N.ltb_lt; exact B]. Qed.
 Global Opaque call_digit char_digit.
 
-Definition cs_step (enc c : N) : N := u64 (u64 (enc * C.call_radix) + call_digit c).
+Definition cs_step (enc c : N) : N := u64 (u64 (enc * ConstsModulator.call_radix) + call_digit c).
 
 Lemma fold_rev_right l : fold_left cs_step (rev l) 0 = fold_right (fun c acc => cs_step acc c) 0 l.
 Proof. induction l as [|x l IH]; [reflexivity|]. cbn [rev fold_right]. rewrite fold_left_app. cbn [fold_left]. rewrite IH. reflexivity. Qed.
@@ -32,7 +32,7 @@ Proof. induction 1 as [|c l Hc Hl IH]; intros Ln; [split; reflexivity|].
   rewrite Nat2N.inj_succ, N.pow_succ_r'.
   assert (P10 : 40 ^ N.of_nat (length l) <= 40 ^ 9) by (apply N.pow_le_mono_r; lia).
   change (40 ^ 9) with 262144000000000 in P10.
-  unfold cs_step. change C.call_radix with 40.
+  unfold cs_step. change ConstsModulator.call_radix with 40.
   rewrite (u64_small (b * 40)) by (change (2 ^ 64) with 18446744073709551616; lia).
   rewrite u64_small by (change (2 ^ 64) with 18446744073709551616; lia). split; lia. Qed.
 
@@ -46,11 +46,11 @@ Lemma all_bytes_repeat0 k : all_bytes (repeat 0 k).
 Proof. apply Forall_forall. intros x Hx. apply repeat_spec in Hx. subst. reflexivity. Qed.
 
 Lemma call_bytes_be enc :
-  rev (map (fun i => u8 (N.shiftr enc (8 * N.of_nat i))) (seq 0 C.call_bytes)) = be_bytes 6 enc.
+  rev (map (fun i => u8 (N.shiftr enc (8 * N.of_nat i))) (seq 0 ConstsModulator.call_bytes)) = be_bytes 6 enc.
 Proof. reflexivity. Qed.
 
 Theorem encode_callsign_spec s : all_bytes s -> (1 <= length s <= 9)%nat -> encode_callsign s = spec_address s.
-Proof. intros Hs Ls. unfold encode_callsign. change C.call_max_len with 9%nat. change C.call_array_len with 10%nat.
+Proof. intros Hs Ls. unfold encode_callsign. change ConstsModulator.call_max_len with 9%nat. change ConstsModulator.call_array_len with 10%nat.
   destruct (Nat.eqb_spec (length s) 0) as [Z|_]; [lia|]. destruct (Nat.ltb_spec 9 (length s)) as [Z|_]; [lia|].
   cbn [orb]. unfold lsf_encode_callsign. fold cs_step. rewrite call_bytes_be. unfold spec_address. f_equal.
   assert (Ec : copy_at (repeat 0 10) 0 s = s ++ repeat 0 (10 - length s)).
@@ -66,7 +66,7 @@ Proof. intros Hs Ls. unfold encode_callsign. change C.call_max_len with 9%nat. c
 Theorem encode_callsign_empty : encode_callsign [] = broadcast_address.
 Proof. reflexivity. Qed.
 Theorem encode_callsign_long s : (9 < length s)%nat -> encode_callsign s = broadcast_address.
-Proof. intros H. unfold encode_callsign. change C.call_max_len with 9%nat.
+Proof. intros H. unfold encode_callsign. change ConstsModulator.call_max_len with 9%nat.
   destruct (Nat.ltb_spec 9 (length s)) as [_|Z]; [|lia]. rewrite orb_true_r. reflexivity. Qed.
 
 Lemma encode_callsign_ok s : all_bytes (encode_callsign s) /\ length (encode_callsign s) = 6%nat.
@@ -76,7 +76,7 @@ Proof. unfold encode_callsign. destruct (_ || _).
   unfold be_bytes. apply Forall_forall. intros x Hx. apply in_map_iff in Hx. destruct Hx as [i [<- _]]. apply land255_lt. Qed.
 
 (** ** the LSF array *)
-Lemma crc_site_is_m17 : C.crc_poly = LemmasCRC_A.P /\ C.crc_init = LemmasCRC_A.I.
+Lemma crc_site_is_m17 : ConstsModulator.crc_poly = LemmasCRC_A.P /\ ConstsModulator.crc_init = LemmasCRC_A.I.
 Proof. split; reflexivity. Qed.
 
 Theorem build_lsf_layout dest source : length dest = 6%nat -> length source = 6%nat ->
@@ -86,8 +86,8 @@ Proof. intros Ld Ls.
   destruct dest as [|d0 [|d1 [|d2 [|d3 [|d4 [|d5 [|? ?]]]]]]]; try discriminate.
   destruct source as [|s0 [|s1 [|s2 [|s3 [|s4 [|s5 [|? ?]]]]]]]; try discriminate.
   unfold build_lsf. destruct crc_site_is_m17 as [-> ->].
-  change C.lsf_len with 30%nat. change C.lsf_first_field with 0%nat. change C.lsf_second_field with 1%nat.
-  change C.lsf_type_writes with [(12%nat, 0); (13%nat, 5)]. change C.lsf_crc_span with 28%nat. change C.lsf_crc_index with (28%nat, 29%nat).
+  change ConstsModulator.lsf_len with 30%nat. change ConstsModulator.lsf_first_field with 0%nat. change ConstsModulator.lsf_second_field with 1%nat.
+  change ConstsModulator.lsf_type_writes with [(12%nat, 0); (13%nat, 5)]. change ConstsModulator.lsf_crc_span with 28%nat. change ConstsModulator.lsf_crc_index with (28%nat, 29%nat).
   cbn [lsf_field repeat copy_at set_nth length fold_left fst snd firstn].
   rewrite get_bytes_hi_lo. unfold crc_hi_lo. cbn [nth set_nth app repeat]. reflexivity. Qed.
 
